@@ -1,5 +1,5 @@
 #!/venv/bin/python
-"""tools/mutscore.py <Cxx> [--max N] [--par P] [--seed S] [--files a.py,b.py] : systematic single-site mutants of the anchor functions.
+"""tools/mutscore.py <Cxx> [--max N] [--par P] [--seed S] [--files a.py,b.py] [--only-files] [--out name] : systematic single-site mutants of the anchor functions.
 
 For the check's anchor functions (ANCHORS of vt/checks/cNN.py, plus every function of --files) one syntactic mutation at a time
 is applied in a scratch copy of /repo (outside /repo and /verif, removed afterwards):
@@ -130,7 +130,7 @@ class Apply(ast.NodeTransformer):
 def anchor_ranges(pid, extra_files):
     mod = importlib.import_module("vt.checks." + pid.lower())
     per_file = {}
-    for anc in getattr(mod, "ANCHORS", []):
+    for anc in ([] if "--only-files" in sys.argv else getattr(mod, "ANCHORS", [])):
         modname, qual = anc.split(":")
         path = os.path.join(REPO, modname.replace(".", "/") + ".py")
         if not os.path.exists(path):
@@ -228,7 +228,7 @@ def main():
     base = tempfile.mkdtemp(prefix="vt_mutscore_")
     out_dir = os.path.join(HERE, "mutants")
     os.makedirs(out_dir, exist_ok=True)
-    out_path = os.path.join(out_dir, pid + ".jsonl")
+    out_path = os.path.join(out_dir, arg("--out", pid) + ".jsonl")
     recs = []
     try:
         with ThreadPoolExecutor(max_workers=par) as ex:
